@@ -411,7 +411,7 @@ PROPS = {
     ),
     'C17': dict(
         explanation="theorem: the hidden Eq assertion covers exactly the fields that take part in equality, or their key value; ignored and by-compared fields are exempt (eq_assert_exact). L1; L2: rustc's accept / refuse verdict against that rule, also with Hash derived and #[hash(ignore)].",
-        theorems=[(CMP + 'C17', ['DX.eq_assert_exact'])],
+        theorems=[(CMP + 'C17', ['DX.eq_assert_exact', 'DX.eq_body_tokens', 'DX.eq_struct_tokens', 'DX.eq_enum_tokens', 'DX.eqChecker_shape', 'DX.op_of_ok'])],
         l1=[('cmp1', 'all', 'all'), ('cmpN', 4000, 200000)],
         extra=extra_verdicts(l2gen.gen_c17_case, 480, 6000),
         labels=r':Eq(#1)?$',
